@@ -86,12 +86,12 @@ theorem attemptNo_fin (s r s' r' : Nat) (l : List Entry) :
 theorem notifyNow_frame (c : Cfg) (σ : St) (s' r' s r : Nat) : NowFrame σ (notifyNow c σ s' r').1 s r s' r' := by
   cases notifyNow_step c σ s' r' with
   | skip _ e => rw [e]; exact ⟨by omega, rfl, rfl, rfl, rfl⟩
-  | call j o nj _ _ _ _ e =>
+  | call j o nj _ _ _ _ _ e =>
     rw [e]
     refine ⟨?_, rfl, rfl, rfl, rfl⟩
     simp only [attemptNo, setJob_ledger, log_ledger]
     rw [attemptNo_call]; omega
-  | callFin j nj _ _ _ e =>
+  | callFin j nj _ _ _ _ e =>
     rw [e]
     refine ⟨?_, rfl, rfl, rfl, rfl⟩
     simp only [attemptNo, setJob_ledger, log_ledger]
